@@ -6,6 +6,7 @@
      schedpviol <prog> <nthreads> <sched>         violation code (SchedObs.violation) after every step, ','-separated
      schedprog                                    the generated program in that syntax
      welllocked <prog>|gen                        the structural check the proofs rest on
+     progshape <prog>|gen                         which of the two accepted shapes: publish-first | publish-last | none
    state syntax:  T<pc>:<ret or ->,...;H<c><r>:<k.k.k>,...;L<holder or ->;I<inst or -> *)
 open Sqlmodel
 open Drv_common
@@ -24,13 +25,15 @@ let obs_str (ths, (heap, (lock, inst))) =
 let instr_of_string s =
   match String.split_on_char '_' s with
   | ["IAcquire"] -> IAcquire | ["IRelease"] -> IRelease | ["INewAssign"] -> INewAssign
-  | ["ILoadSelf"] -> ILoadSelf | ["IClear"] -> IClear | ["ISetRegex"] -> ISetRegex | ["IReturn"] -> IReturn
+  | ["ILoadSelf"] -> ILoadSelf | ["INewLocal"] -> INewLocal | ["IPublishSelf"] -> IPublishSelf
+  | ["IClear"] -> IClear | ["ISetRegex"] -> ISetRegex | ["IReturn"] -> IReturn
   | ["IJumpIfInst"; n] -> IJumpIfInst (nat_of_int (int_of_string n))
   | ["IAddKw"; n] -> IAddKw (nat_of_int (int_of_string n))
   | _ -> failwith ("bad instruction " ^ s)
 
 let string_of_instr = function
   | IAcquire -> "IAcquire" | IRelease -> "IRelease" | INewAssign -> "INewAssign" | ILoadSelf -> "ILoadSelf"
+  | INewLocal -> "INewLocal" | IPublishSelf -> "IPublishSelf"
   | IClear -> "IClear" | ISetRegex -> "ISetRegex" | IReturn -> "IReturn"
   | IJumpIfInst n -> "IJumpIfInst_" ^ string_of_int (int_of_nat n)
   | IAddKw n -> "IAddKw_" ^ string_of_int (int_of_nat n)
@@ -58,6 +61,10 @@ let () =
     | _ -> "BAD");
   register "schedprog" (function
     | _ -> String.concat ";" (List.map string_of_instr sched_prog));
+  register "progshape" (function
+    | [p] -> (match sched_shape (prog_of_string p) with
+              | Some false -> "publish-first" | Some true -> "publish-last" | None -> "none")
+    | _ -> "BAD");
   register "welllocked" (function
     | [p] -> if sched_well_locked (prog_of_string p) then "true" else "false"
     | _ -> "BAD")
